@@ -539,7 +539,18 @@ func (self *Value) updateByteLen(originLen int, address []int, isPacked bool, pa
 		// notice: when i == len(address) - 1, it do not change bytes length because it has been changed in replace function, just change previousType
 		pathType := path[i].t
 		addressPtr := address[i]
-		if previousType == proto.MESSAGE || (previousType == proto.LIST && isPacked) {
+		// childType is the type which path[i+1] belongs to, namely the type of the node at path[i]
+		childType := previousType
+		if pathType == PathStrKey || pathType == PathIntKey {
+			previousType = proto.MAP
+		} else if pathType == PathIndex {
+			previousType = proto.LIST
+		} else {
+			previousType = proto.MESSAGE
+		}
+		if childType == proto.MESSAGE || (childType == proto.LIST && isPacked) {
+			// only the innermost list can be the packed one
+			isPacked = false
 			newBytes := NewBytesFromPool()
 			// tag
 			buf := rt.BytesFrom(rt.AddPtr(self.v, uintptr(addressPtr)), self.l-addressPtr, self.l-addressPtr)
@@ -581,19 +592,8 @@ func (self *Value) updateByteLen(originLen int, address []int, isPacked bool, pa
 			copy(newBuf[l0+l1:l0+l1+l2], rt.BytesFrom(srcTail, l2, l2))
 			self.v = rt.GetBytePtr(newBuf)
 			self.l = int(len(newBuf))
-			if isPacked {
-				isPacked = false
-			}
 			diffLen += subLen
 			FreeBytesToPool(newBytes)
-		}
-
-		if pathType == PathStrKey || pathType == PathIntKey {
-			previousType = proto.MAP
-		} else if pathType == PathIndex {
-			previousType = proto.LIST
-		} else {
-			previousType = proto.MESSAGE
 		}
 	}
 }
